@@ -238,17 +238,27 @@ namespace pika::mpi::experimental {
         /// by the polling routines to check when requests have completed
         void add_to_request_callback_queue(request_callback&& req_callback)
         {
+            PIKA_VERIF_PRE("mpi.gacinc", nullptr);
             pika::threads::detail::increment_global_activity_count();
+            PIKA_VERIF_POST("mpi.gacinc", nullptr, (std::uint64_t) (std::uintptr_t) (req_callback.request_), 0);
+            PIKA_VERIF_PRE("mpi.ifinc", nullptr);
             ++mpi_data_.all_in_flight_;
+            PIKA_VERIF_POST("mpi.ifinc", nullptr, (std::uint64_t) (std::uintptr_t) (req_callback.request_),
+                mpi_data_.all_in_flight_.load());
             //
             PIKA_DETAIL_DP(
                 mpi_debug<5>, debug(str<>("CB queued"), ptr(req_callback.request_), mpi_data_));
 
             // can skip the queue and go direct to the polling vector when singlethreaded
+#if defined(PIKA_VERIF_HOOKS)
+            auto const verif_req_ = (std::uint64_t) (std::uintptr_t) (req_callback.request_);
+#endif
+            PIKA_VERIF_PRE("mpi.enq", nullptr);
             if (mpi_data_.single_thread_mode_)
                 add_to_request_callback_vector(std::move(req_callback));
             else
                 mpi_data_.request_callback_queue_.enqueue(std::move(req_callback));
+            PIKA_VERIF_POST("mpi.enq", nullptr, verif_req_, mpi_data_.single_thread_mode_ ? 1 : 0);
         }
 
 #if defined(PIKA_DEBUG)
@@ -390,6 +400,8 @@ namespace pika::mpi::experimental {
             ready_callback ready_callback_;
             while (mpi_data_.ready_requests_.try_dequeue(ready_callback_))
             {
+                PIKA_VERIF_POST("mpi.deq", nullptr, (std::uint64_t) (std::uintptr_t) (ready_callback_.request_),
+                    ready_callback_.err_);
 #ifdef PIKA_HAVE_APEX
                 apex::scoped_timer apex_invoke("pika::mpi::trigger");
 #endif
@@ -398,9 +410,17 @@ namespace pika::mpi::experimental {
                         ready_callback_.err_));
 
                 // decrement before invoking callback : race if invoked code checks in_flight
+                PIKA_VERIF_PRE("mpi.ifdec", nullptr);
                 --mpi_data_.all_in_flight_;
+                PIKA_VERIF_POST("mpi.ifdec", nullptr, (std::uint64_t) (std::uintptr_t) (ready_callback_.request_),
+                    mpi_data_.all_in_flight_.load());
+                PIKA_VERIF_POST("mpi.call", nullptr, (std::uint64_t) (std::uintptr_t) (ready_callback_.request_),
+                    ready_callback_.err_);
                 PIKA_INVOKE(std::move(ready_callback_.cb_), ready_callback_.err_);
+                PIKA_VERIF_POST("mpi.ret", nullptr, (std::uint64_t) (std::uintptr_t) (ready_callback_.request_), 0);
+                PIKA_VERIF_PRE("mpi.gacdec", nullptr);
                 pika::threads::detail::decrement_global_activity_count();
+                PIKA_VERIF_POST("mpi.gacdec", nullptr, (std::uint64_t) (std::uintptr_t) (ready_callback_.request_), 0);
             }
 
             // if we think there are no outstanding requests, then exit quickly
@@ -432,6 +452,10 @@ namespace pika::mpi::experimental {
                         mpi_debug<5>.make_timer(2, debug::detail::str<>("Poll - lock success"));
                     PIKA_DETAIL_DP(mpi_debug<5>, timed(poll_deb, mpi_data_));
                 }
+#if defined(PIKA_VERIF_HOOKS)
+                bool verif_locked_ = false;    // the lock note is logged lazily (only if the vectors are touched)
+#endif
+                PIKA_VERIF_POINT("mpi.pt.locked", nullptr, 0, 0);
 
                 bool event_handled;
                 do {
@@ -445,6 +469,10 @@ namespace pika::mpi::experimental {
                     while (mpi_data_.request_callback_queue_.try_dequeue(req_callback))
                     {
                         add_to_request_callback_vector(std::move(req_callback));
+#if defined(PIKA_VERIF_HOOKS)
+                        if (!verif_locked_) { verif_locked_ = true; PIKA_VERIF_POST("mpi.lock", nullptr, 0, 0); }
+#endif
+                        PIKA_VERIF_POST("mpi.q2v", nullptr, (std::uint64_t) (std::uintptr_t) (req_callback.request_), 0);
                     }
 
                     std::uint32_t vsize = mpi_data_.requests_.size();
@@ -480,6 +508,10 @@ namespace pika::mpi::experimental {
                                 for (int i = 0; i < num_completed; ++i)
                                 {
                                     size_t index = indices_vector_[i];
+#if defined(PIKA_VERIF_HOOKS)
+                                    if (!verif_locked_) { verif_locked_ = true; PIKA_VERIF_POST("mpi.lock", nullptr, 0, 0); }
+#endif
+                                    PIKA_VERIF_PRE("mpi.ready", nullptr);
                                     mpi_data_.ready_requests_.enqueue(
                                         {std::move(mpi_data_.callbacks_[req_init + index].cb_),
                                             mpi_data_.callbacks_[req_init + index].request_,
@@ -487,6 +519,9 @@ namespace pika::mpi::experimental {
                                                            MPI_SUCCESS});
                                     // Remove the request from our vector to prevent retesting
                                     mpi_data_.requests_[req_init + index] = MPI_REQUEST_NULL;
+                                    PIKA_VERIF_POST("mpi.ready", nullptr,
+                                        (std::uint64_t) (std::uintptr_t) (mpi_data_.callbacks_[req_init + index].request_),
+                                        status_valid ? status_vector_[i].MPI_ERROR : MPI_SUCCESS);
                                 }
                             }
                             vsize -= req_size;
@@ -502,17 +537,26 @@ namespace pika::mpi::experimental {
                         {
                             size_t index = static_cast<size_t>(rindex);
                             event_handled = true;
+#if defined(PIKA_VERIF_HOOKS)
+                            if (!verif_locked_) { verif_locked_ = true; PIKA_VERIF_POST("mpi.lock", nullptr, 0, 0); }
+#endif
+                            PIKA_VERIF_PRE("mpi.ready", nullptr);
                             mpi_data_.ready_requests_.enqueue(
                                 {std::move(mpi_data_.callbacks_[index].cb_),
                                     mpi_data_.callbacks_[index].request_, status});
                             // Remove the request from our vector to prevent retesting
                             mpi_data_.requests_[index] = MPI_REQUEST_NULL;
+                            PIKA_VERIF_POST("mpi.ready", nullptr,
+                                (std::uint64_t) (std::uintptr_t) (mpi_data_.callbacks_[index].request_), status);
                         }
                     }
                 } while (event_handled == true);
 
                 // still under lock : remove wasted space caused by completed requests
                 compact_vectors();
+#if defined(PIKA_VERIF_HOOKS)
+                if (verif_locked_) PIKA_VERIF_POST("mpi.unlock", nullptr, 0, 0);
+#endif
             }    // end lock scope block
 
             // output a debug heartbeat every N seconds
@@ -524,8 +568,11 @@ namespace pika::mpi::experimental {
             }
 
             // invoke (new) ready callbacks without being under lock
+            PIKA_VERIF_POINT("mpi.pt.unlocked", nullptr, 0, 0);
             while (mpi_data_.ready_requests_.try_dequeue(ready_callback_))
             {
+                PIKA_VERIF_POST("mpi.deq", nullptr, (std::uint64_t) (std::uintptr_t) (ready_callback_.request_),
+                    ready_callback_.err_);
 #ifdef PIKA_HAVE_APEX
                 apex::scoped_timer apex_invoke("pika::mpi::trigger");
 #endif
@@ -533,9 +580,17 @@ namespace pika::mpi::experimental {
                     debug(str<>("CB invoke"), ptr(ready_callback_.request_), ready_callback_.err_));
 
                 // decrement before invoking callback : race if invoked code checks in_flight
+                PIKA_VERIF_PRE("mpi.ifdec", nullptr);
                 --mpi_data_.all_in_flight_;
+                PIKA_VERIF_POST("mpi.ifdec", nullptr, (std::uint64_t) (std::uintptr_t) (ready_callback_.request_),
+                    mpi_data_.all_in_flight_.load());
+                PIKA_VERIF_POST("mpi.call", nullptr, (std::uint64_t) (std::uintptr_t) (ready_callback_.request_),
+                    ready_callback_.err_);
                 PIKA_INVOKE(std::move(ready_callback_.cb_), ready_callback_.err_);
+                PIKA_VERIF_POST("mpi.ret", nullptr, (std::uint64_t) (std::uintptr_t) (ready_callback_.request_), 0);
+                PIKA_VERIF_PRE("mpi.gacdec", nullptr);
                 pika::threads::detail::decrement_global_activity_count();
+                PIKA_VERIF_POST("mpi.gacdec", nullptr, (std::uint64_t) (std::uintptr_t) (ready_callback_.request_), 0);
             }
 
             return mpi_data_.all_in_flight_.load(std::memory_order_relaxed) == 0 ?
@@ -574,6 +629,7 @@ namespace pika::mpi::experimental {
                 while (mpi_data_.request_callback_queue_.try_dequeue(req_callback))
                 {
                     add_to_request_callback_vector(std::move(req_callback));
+                    PIKA_VERIF_POST("mpi.q2v", nullptr, (std::uint64_t) (std::uintptr_t) (req_callback.request_), 1);
                 }
 
                 int rindex, flag;
@@ -590,11 +646,22 @@ namespace pika::mpi::experimental {
 
                     // Remove the request from our vector to prevent retesting
                     mpi_data_.requests_[index] = MPI_REQUEST_NULL;
+#if defined(PIKA_VERIF_HOOKS)
+                    auto const verif_req_ =
+                        (std::uint64_t) (std::uintptr_t) (mpi_data_.callbacks_[index].request_);
+#endif
+                    PIKA_VERIF_POST("mpi.testany", nullptr, verif_req_, status);
 
                     // decrement before invoking callback : race if invoked code checks in_flight
+                    PIKA_VERIF_PRE("mpi.ifdec", nullptr);
                     --mpi_data_.all_in_flight_;
+                    PIKA_VERIF_POST("mpi.ifdec", nullptr, verif_req_, mpi_data_.all_in_flight_.load());
+                    PIKA_VERIF_POST("mpi.call", nullptr, verif_req_, status);
                     PIKA_INVOKE(std::move(mpi_data_.callbacks_[index].cb_), status);
+                    PIKA_VERIF_POST("mpi.ret", nullptr, verif_req_, 0);
+                    PIKA_VERIF_PRE("mpi.gacdec", nullptr);
                     pika::threads::detail::decrement_global_activity_count();
+                    PIKA_VERIF_POST("mpi.gacdec", nullptr, verif_req_, 0);
                 }
             } while (event_handled == true);
 
@@ -642,6 +709,7 @@ namespace pika::mpi::experimental {
 
             // get mpi completion mode settings
             auto mode = get_completion_mode();
+            PIKA_VERIF_PRE("mpi.pollon", nullptr);
             mpi_data_.single_thread_mode_ = can_run_singlethreaded(mode);
             if (mpi_data_.single_thread_mode_)
             {
@@ -664,6 +732,7 @@ namespace pika::mpi::experimental {
                 sched->set_mpi_polling_functions(&poll_singlethreaded, &get_work_count);
             else
                 sched->set_mpi_polling_functions(&poll_multithreaded, &get_work_count);
+            PIKA_VERIF_POST("mpi.pollon", nullptr, mpi_data_.single_thread_mode_ ? 1 : 0, mode);
         }
 
         // ------------------------------------------------------------`-
@@ -686,7 +755,9 @@ namespace pika::mpi::experimental {
                 debug(str<>("disable polling"), "pool =", pool.get_pool_name(), ", mode",
                     mode_string(get_completion_mode()), get_completion_mode()));
             auto* sched = pool.get_scheduler();
+            PIKA_VERIF_PRE("mpi.polloff", nullptr);
             sched->clear_mpi_polling_function();
+            PIKA_VERIF_POST("mpi.polloff", nullptr, 0, 0);
         }
 
         // -------------------------------------------------------------
@@ -894,6 +965,7 @@ namespace pika::mpi::experimental {
         // don't allow polling code to run until init has completed
         std::lock_guard<detail::mutex_type> lk(detail::mpi_data_.polling_vector_mtx_);
         PIKA_DETAIL_DP(detail::mpi_debug<1>, debug(str<>("start_polling"), detail::mpi_data_));
+        PIKA_VERIF_POST("mpi.lock", nullptr, 1, 0);
 
         if (pool_name.empty())
         {
@@ -965,6 +1037,7 @@ namespace pika::mpi::experimental {
 
         // --------------------------------------
         detail::register_polling();
+        PIKA_VERIF_POST("mpi.unlock", nullptr, 1, 0);
     }
 
     // -----------------------------------------------------------------
@@ -972,12 +1045,14 @@ namespace pika::mpi::experimental {
     {
         // don't remove handlers if the polling code is in use right now
         std::lock_guard<detail::mutex_type> lk(detail::mpi_data_.polling_vector_mtx_);
+        PIKA_VERIF_POST("mpi.lock", nullptr, 2, 0);
         detail::unregister_polling(pika::resource::get_thread_pool(get_pool_name()));
 
         // try to ensure that no (other) threads are still polling
         // before we exit and allow polling to commence on another pool
         pika::util::yield_while(
             [&] { return detail::mpi_data_.all_in_flight_ > 0; }, "mpi::stop_polling");
+        PIKA_VERIF_POST("mpi.stopret", nullptr, detail::mpi_data_.all_in_flight_.load(), 0);
 
         // remove error handler if we installed it
         if (detail::mpi_data_.error_handler_initialized_)
@@ -991,6 +1066,7 @@ namespace pika::mpi::experimental {
         // clean up if we initialized mpi
         PIKA_DETAIL_DP(detail::mpi_debug<1>, debug(str<>("finalize"), detail::mpi_data_));
         mpi::detail::environment::finalize();
+        PIKA_VERIF_POST("mpi.unlock", nullptr, 2, 0);
     }
 
 }    // namespace pika::mpi::experimental
